@@ -179,6 +179,40 @@ func RxRunRegs(need, nenv, ps0 int, pkts []Pkt, regs map[int][2]int) (res sx.L, 
 	foreignEnv := func(typ tds.EnvChangeType, o, n string) {
 		hooks = append(hooks, hookEv{0, sx.L{sx.I(5), sx.I(-1), sx.I(int64(typ)), pk.S(o), pk.S(n)}})
 	}
+	// Refused registrations: a list with a nil hook (at index 0, in the middle, at the end) is rejected with an error and
+	// must register NOTHING - a hook of a refused list that is called later is reported as hook -2, a refused list that
+	// is accepted as hook -3.
+	rogueEed := func(e tds.EEDPackage) {
+		_, f, _ := renderCore(&e)
+		hooks = append(hooks, hookEv{0, sx.L{sx.I(4), sx.I(-2), f}})
+	}
+	rogueEnv := func(typ tds.EnvChangeType, o, n string) {
+		hooks = append(hooks, hookEv{0, sx.L{sx.I(5), sx.I(-2), sx.I(int64(typ)), pk.S(o), pk.S(n)}})
+	}
+	accepted := 0
+	refusals := 0
+	refuse := func() {
+		refusals++
+		var eeds []tds.EEDHook
+		var envs []tds.EnvChangeHook
+		switch refusals % 3 {
+		case 0:
+			eeds, envs = []tds.EEDHook{nil, rogueEed}, []tds.EnvChangeHook{nil, rogueEnv}
+		case 1:
+			eeds, envs = []tds.EEDHook{rogueEed, nil, rogueEed}, []tds.EnvChangeHook{rogueEnv, nil, rogueEnv}
+		default:
+			eeds, envs = []tds.EEDHook{rogueEed, rogueEed, nil}, []tds.EnvChangeHook{rogueEnv, rogueEnv, nil}
+		}
+		if ch.RegisterEEDHooks(eeds...) == nil {
+			accepted++
+		}
+		if ch.RegisterEnvChangeHooks(envs...) == nil {
+			accepted++
+		}
+	}
+	if regs != nil {
+		refuse()
+	}
 	if need > 0 || nenv > 0 {
 		if c2, err := tds.VerifNewConn(context.Background(), &tds.Info{}, nullTransport{}, false); err == nil {
 			sibling, _ = c2.NewChannel()
@@ -219,6 +253,7 @@ func RxRunRegs(need, nenv, ps0 int, pkts []Pkt, regs map[int][2]int) (res sx.L, 
 			for i := 0; i < r[1]; i++ {
 				addEnv()
 			}
+			refuse()
 			if sibling != nil && !siblingDone {
 				siblingDone = true
 				sibling.RegisterEEDHooks(foreign)
@@ -279,6 +314,9 @@ func RxRunRegs(need, nenv, ps0 int, pkts []Pkt, regs map[int][2]int) (res sx.L, 
 		if panicked {
 			evs = append(evs, sx.L{sx.I(7), sx.I(-1)})
 			fatal = true
+		}
+		for ; accepted > 0; accepted-- {
+			evs = append(evs, sx.L{sx.I(4), sx.I(-3), sx.L{}})
 		}
 		if evs == nil {
 			evs = sx.L{}
